@@ -53,7 +53,7 @@ func (e *exec) diskFail(toks []string) string {
 	}
 	e.tdb.Reference(r, common.EmptyHash)
 	e.roots = append(e.roots, r)
-	want, err := leavesOf(trie.NewIterator(e.t().NodeIterator(nil)))
+	want, err := leavesOf(trie.NewIterator(e.t().NodeIterator(nil)), e)
 	if err != nil {
 		return "err-iter"
 	}
@@ -75,7 +75,7 @@ func (e *exec) diskFail(toks []string) string {
 			bad++
 			continue
 		}
-		if got, err3 := leavesOf(trie.NewIterator(t2.NodeIterator(nil))); err3 != nil || strings.Join(got, ",") != strings.Join(want, ",") {
+		if got, err3 := leavesOf(trie.NewIterator(t2.NodeIterator(nil)), e); err3 != nil || strings.Join(got, ",") != strings.Join(want, ",") {
 			bad++
 		}
 	}
@@ -92,7 +92,7 @@ func (e *exec) diskFail(toks []string) string {
 	if err := e.open(r); err != nil {
 		return fmt.Sprintf("root=%s bad=%d lost-after-success", hx.Hex(r.Bytes()), bad+1)
 	}
-	if got, err := leavesOf(trie.NewIterator(e.t().NodeIterator(nil))); err != nil || strings.Join(got, ",") != strings.Join(want, ",") {
+	if got, err := leavesOf(trie.NewIterator(e.t().NodeIterator(nil)), e); err != nil || strings.Join(got, ",") != strings.Join(want, ",") {
 		bad++
 	}
 	return fmt.Sprintf("root=%s bad=%d", hx.Hex(r.Bytes()), bad)
@@ -100,13 +100,24 @@ func (e *exec) diskFail(toks []string) string {
 
 var emptyRootHash = common.HexToHash("56e81f171bcc55a6ff8345e692c0f86e5b48e01b996cadc001622fb5e363b421")
 
-func leavesOf(it *trie.Iterator) ([]string, error) {
+func leavesOf(it *trie.Iterator, es ...*exec) ([]string, error) {
 	var items []string
 	for it.Next() {
 		items = append(items, hx.Hex(it.Key)+":"+hx.Hex(it.Value))
+		for _, e := range es {
+			e.out(it.Key)
+		}
 	}
 	return items, it.Err
 }
+
+// scribbleGetKeyResult: overwrite the slice GetKey returned (after recording it).  On the unchanged tree GetKey hands out the
+// key cache's own slice (no copy): see coverage_notes / proposed.
+const scribbleGetKeyResult = false
+
+// scribbleInsertBlob: overwrite the blob handed to Database.InsertBlob after the call.  On the unchanged tree InsertBlob keeps
+// the caller's slice (rawNode(blob), no copy): see coverage_notes / proposed/C10-buffer-sharing.md.
+const scribbleInsertBlob = false
 
 func showLeaves(items []string) string {
 	kv := "-"
@@ -157,7 +168,7 @@ func (e *exec) toDisk() (common.Hash, error) {
 
 func (e *exec) missingSweep(toks []string) string {
 	op, _ := hx.Arg(toks, "op")
-	k, v := argHex(toks, "k"), argHex(toks, "v")
+	k, v := e.in(argHex(toks, "k")), argHex(toks, "v")
 	r, err := e.toDisk()
 	if err != nil {
 		return "err-missing-node"
@@ -197,16 +208,16 @@ func (e *exec) missingSweep(toks []string) string {
 			}
 			return "root=" + hx.Hex(t.Hash().Bytes()), nil
 		case "prove":
-			rec := &recorder{}
+			rec := &recorder{e: e}
 			if err := t.Prove(e.tkey(k), 0, rec); err != nil {
 				return "", err
 			}
 			return hexList(rec.nodes), nil
 		case "iter":
-			items, err := leavesOf(trie.NewIterator(t.NodeIterator(nil)))
+			items, err := leavesOf(trie.NewIterator(t.NodeIterator(nil)), e)
 			return strings.Join(items, ","), err
 		case "seek":
-			items, err := leavesOf(trie.NewIterator(t.NodeIterator(k)))
+			items, err := leavesOf(trie.NewIterator(t.NodeIterator(k)), e)
 			return strings.Join(items, ","), err
 		case "getw", "putw", "delw":
 			// the logging wrappers swallow the error: a failure shows as a wrong answer
@@ -305,14 +316,19 @@ func (e *exec) exec2(toks []string) (string, bool) {
 	switch toks[0] {
 	case "iterfrom":
 		root := e.t().Hash()
-		it := trie.NewIterator(e.t().NodeIterator(argHex(toks, "start")))
+		it := trie.NewIterator(e.t().NodeIterator(e.in(argHex(toks, "start"))))
 		var items []string
 		for it.Next() {
 			items = append(items, hx.Hex(it.Key)+":"+hx.Hex(it.Value))
 			// Iterator.Prove: the proof of the leaf the iterator stands on verifies against the root
-			if val, _, err := trie.VerifyProof(root, it.Key, contentDB(it.Prove())); err != nil || !bytes.Equal(val, it.Value) {
+			proof := it.Prove()
+			if val, _, err := trie.VerifyProof(root, it.Key, contentDB(proof)); err != nil || !bytes.Equal(val, it.Value) {
 				return "leafproof-bad k=" + hx.Hex(it.Key), true
 			}
+			for _, p := range proof {
+				e.out(p)
+			}
+			e.out(it.Key)
 		}
 		if it.Err != nil {
 			return "err-iter", true
@@ -329,10 +345,15 @@ func (e *exec) exec2(toks []string) (string, bool) {
 			if it.Leaf() {
 				leaves++
 				key, blob := it.LeafKey(), it.LeafBlob()
-				val, _, err := trie.VerifyProof(root, key, contentDB(it.LeafProof()))
+				proof := it.LeafProof()
+				val, _, err := trie.VerifyProof(root, key, contentDB(proof))
 				if err == nil && bytes.Equal(val, blob) {
 					okp++
 				}
+				for _, p := range proof {
+					e.out(p)
+				}
+				e.out(key)
 			}
 		}
 		if it.Error() != nil {
@@ -381,6 +402,7 @@ func (e *exec) exec2(toks []string) (string, bool) {
 				} else {
 					_ = ni.LeafProof()
 				}
+				e.out(key)
 			}
 		}
 		if ni.Error() != nil {
@@ -391,12 +413,16 @@ func (e *exec) exec2(toks []string) (string, bool) {
 		if !e.secure {
 			return "bad-op", true
 		}
-		if p := e.sec.GetKey(crypto.Keccak256(argHex(toks, "k"))); len(p) > 0 {
-			return "pre=" + hx.Hex(p), true
+		if p := e.sec.GetKey(e.in(crypto.Keccak256(e.in(argHex(toks, "k"))))); len(p) > 0 {
+			ans := "pre=" + hx.Hex(p)
+			if scribbleGetKeyResult {
+				e.out(p)
+			}
+			return ans, true
 		}
 		return "pre=nil", true
 	case "copywrite":
-		k, v := argHex(toks, "k"), argHex(toks, "v")
+		k, v := e.in(argHex(toks, "k")), argHex(toks, "v")
 		var cpy anyTrie
 		if e.secure {
 			cpy = e.sec.Copy()
@@ -414,8 +440,11 @@ func (e *exec) exec2(toks []string) (string, bool) {
 		}
 		pre := "nil"
 		if e.secure {
-			if p := e.sec.GetKey(crypto.Keccak256(k)); len(p) > 0 {
+			if p := e.sec.GetKey(e.in(crypto.Keccak256(k))); len(p) > 0 {
 				pre = hx.Hex(p)
+				if scribbleGetKeyResult {
+					e.out(p)
+				}
 			}
 		} else {
 			pre = "nil"
@@ -465,7 +494,7 @@ func (e *exec) exec2(toks []string) (string, bool) {
 
 // stateless ops of the second family (no live trie needed beyond the node database)
 func (e *exec) openMissing(toks []string) string {
-	h := common.BytesToHash(crypto.Keccak256(argHex(toks, "h")))
+	h := common.BytesToHash(crypto.Keccak256(e.in(argHex(toks, "h"))))
 	var err error
 	if kind, _ := hx.Arg(toks, "kind"); kind == "secure" {
 		_, err = trie.NewSecure(h, e.tdb, 0)
@@ -486,9 +515,21 @@ func (e *exec) dbStat(toks []string) string {
 			return "integrity=bad:node-" + hx.Hex(h[:4])
 		}
 	}
+	if e.blobsDB != e.tdb {
+		e.blobsDB, e.blobs = e.tdb, map[common.Hash][]byte{}
+	}
+	for h, want := range e.blobs { // blobs inserted by earlier ops (their buffers were overwritten since) still read back
+		if got, _ := e.tdb.Node(h); len(got) > 0 && !bytes.Equal(got, want) {
+			return "integrity=bad:earlier-blob-changed"
+		}
+	}
 	blob := argHex(toks, "blob")
+	if scribbleInsertBlob {
+		e.in(blob)
+	}
 	if len(blob) > 0 {
 		h := common.BytesToHash(crypto.Keccak256(blob))
+		e.blobs[h] = append([]byte{}, blob...)
 		e.tdb.InsertBlob(h, blob)
 		got, err := e.tdb.Node(h)
 		if err != nil || !bytes.Equal(got, blob) {
